@@ -2,7 +2,8 @@
 Determinism — model of the places where pydoctor's output could depend on something other than
 its inputs (C18).  Import-free, executable, total.
 
-Three parts, each a literal transcription of the code named beside it:
+Four parts (the fourth, the build-time decision, is at the end of the file), each a literal
+transcription of the code named beside it:
 
 1. *Set-iteration sites.*  Python iterates a `set` in an order fixed by the hash seed of the
    interpreter.  A site is therefore modelled as a function applied to an ARBITRARY enumeration
@@ -303,6 +304,57 @@ def shapeOf (ops : List Op) : Option (List (Name × Nat) × Option (Name × Name
       if r.isEmpty then some (b, some (s, t), a) else none
     else none
   | _ => none
+
+/-! ## 4. the build time (what the footer of every page shows) -/
+
+/-- `os.environ['SOURCE_DATE_EPOCH']` as `int(...)` and `datetime.utcfromtimestamp(...)` see it -/
+inductive EnvEpoch where
+  | unset                    -- KeyError
+  | notInt                   -- int() raises ValueError ('abc', '', '1.5')
+  | value (seconds : Int)    -- accepted: 0, '00', '0 ', negative, 2^31, twelve digits …
+  | yearRange                -- utcfromtimestamp raises ValueError (year out of range)
+  | platformRange            -- utcfromtimestamp raises OverflowError / OSError (not caught)
+  deriving DecidableEq, Repr
+
+/-- `options.buildtime` as `if options.buildtime:` and `strptime(..., BUILDTIME_FORMAT)` see it -/
+inductive OptTime where
+  | notGiven                 -- None or ''
+  | bad                      -- strptime raises ValueError
+  | time (seconds : Int)
+  deriving DecidableEq, Repr
+
+inductive BuildTime where
+  | time (seconds : Int)     -- system.buildtime, as seconds since 1970-01-01 00:00:00 of the naive datetime
+  | exitError                -- utils.error(): message, sys.exit(1)
+  | crash                    -- uncaught exception
+  deriving DecidableEq, Repr
+
+/-- model.System.__init__ (`self.buildtime = datetime.datetime.now()`) followed by driver.get_system:
+```
+try: system.buildtime = datetime.datetime.utcfromtimestamp(int(os.environ['SOURCE_DATE_EPOCH']))
+except ValueError as e: error(str(e))
+except KeyError: pass
+if options.buildtime:
+    try: system.buildtime = datetime.datetime.strptime(options.buildtime, BUILDTIME_FORMAT)
+    except ValueError as e: error(str(e))
+```
+`now` = what the clock says when the System is created.  A SET variable is used whatever its
+value — `0` included: there is no truthiness test on the number. -/
+def buildTime (now : Int) (env : EnvEpoch) (opt : OptTime) : BuildTime :=
+  match env with
+  | .notInt => .exitError
+  | .yearRange => .exitError
+  | .platformRange => .crash
+  | .unset =>
+    match opt with
+    | .notGiven => .time now
+    | .bad => .exitError
+    | .time t => .time t
+  | .value n =>
+    match opt with
+    | .notGiven => .time n
+    | .bad => .exitError
+    | .time t => .time t
 
 /-- the executable property predicate for part 1: a site function gives the same answer on two
 enumerations -/
